@@ -347,7 +347,14 @@ def rule_hof_order(ctx: Ctx) -> None:
         strict = isinstance(guard, ast.Compare) and len(guard.ops) == 1 and (
             (isinstance(guard.ops[0], ast.Lt) and norm(guard.left) == sc and norm(guard.comparators[0]) == f"self.hof[{iv}][0]") or
             (isinstance(guard.ops[0], ast.Gt) and norm(guard.comparators[0]) == sc and norm(guard.left) == f"self.hof[{iv}][0]"))
-        tie = f"len({circ}.dag.nodes) < len(self.hof" in txt and any(
+        def _shorter(g):
+            # len(new.dag.nodes) < len(self.hof[i][1].dag.nodes), written either way round
+            if not (isinstance(g, ast.Compare) and len(g.ops) == 1):
+                return False
+            a_, b_ = norm(g.left), norm(g.comparators[0])
+            new_, old_ = f"len({circ}.dag.nodes)", f"len(self.hof[{iv}][1].dag.nodes)"
+            return (isinstance(g.ops[0], ast.Lt) and (a_, b_) == (new_, old_)) or (isinstance(g.ops[0], ast.Gt) and (a_, b_) == (old_, new_))
+        tie = _shorter(guard) and any(
             isinstance(a, ast.If) and "isclose" in norm(a.test) and any(c is x for b in a.body for x in ast.walk(b)) for a in _anc(c))
         if pos_ok and (strict or tie):
             ctx.ok("hof.order", m, c, what="insert at the scanned position under `score < hof[i][0]` / tie-break")
